@@ -201,3 +201,132 @@ def operators(w, cfg):
         w.canary('canary: result + 1', w.eq(image(r).flat[0], first + 1))
     else:
         w.canary('canary: sparse raises', sp_exc is not None)
+
+
+# --------------------------------------------------------------------------- reductions with axis / keepdims
+
+def red_configs(tier):
+    out = []
+    shapes = [('SparseVector', (1,)), ('SparseVector', (3,)), ('SparseArray', (1, 2)), ('SparseArray', (2, 2))]
+    if tier == 'thorough':
+        shapes += [('SparseVector', (2,)), ('SparseArray', (2, 3)), ('SparseArray', (3, 1))]
+    for kind, shape in shapes:
+        axes = [None, 0] if len(shape) == 1 else [None, 0, 1]
+        for red in ('sum', 'mean', 'max', 'min', 'any', 'all'):
+            for axis in axes:
+                for keepdims in (False, True):
+                    out.append({'name': f'{kind}{list(shape)}.{red}(axis={axis},keepdims={keepdims})', 'kind': kind,
+                                'shape': list(shape), 'red': red, 'axis': axis, 'keepdims': keepdims})
+    return out
+
+
+@group('C09/reductions', configs=red_configs,
+       functions=['thermosteam.base.sparse:SparseVector.sum/mean/max/min/any/all',
+                  'thermosteam.base.sparse:SparseArray.sum/mean/max/min/any/all', 'thermosteam.base.sparse:sum_sparse_vectors'])
+def reductions(w, cfg):
+    a, A = mk_operand(w, 'a', cfg['kind'], tuple(cfg['shape']))
+    A0 = A.copy()
+    red, axis, keepdims = cfg['red'], cfg['axis'], cfg['keepdims']
+    if red in ('any', 'all'):
+        Ab = np.array([bool(x) for x in A.flat], dtype=bool).reshape(A.shape)
+        expect = getattr(np, red)(Ab, axis=axis, keepdims=keepdims)
+    else:
+        expect = getattr(np, red)(A, axis=axis, keepdims=keepdims)
+    try:
+        r = getattr(a, red)(axis=axis, keepdims=keepdims)
+    except EXC as e:
+        w.ensure('NumPy accepts the reduction => sparse accepts it', False, exc=str(e))
+        return
+    got = image(r) if isinstance(r, (SparseVector, SparseLogicalVector, SparseArray)) else np.asarray(r)
+    if red in ('any', 'all'):
+        gotb = np.array([bool(x) for x in np.asarray(got).flat], dtype=bool).reshape(np.shape(got))
+        w.ensure('result = NumPy result', bool(gotb.shape == np.shape(expect) and np.array_equal(gotb, expect)),
+                 got=str(gotb.tolist()), numpy=str(np.asarray(expect).tolist()))
+    else:
+        w.ensure('result = NumPy result', same(w, got, expect), got_shape=str(np.shape(got)), numpy_shape=str(np.shape(expect)))
+    if isinstance(r, (SparseVector, SparseArray, SparseLogicalVector)):
+        w.ensure('rep_ok(result)', rep_ok(w, r))
+    w.ensure('operand unchanged', same(w, image(a), A0))
+    if red in ('sum', 'mean', 'max', 'min'):
+        w.canary('canary: result + 1', w.eq(np.asarray(got).flat[0], np.asarray(expect).flat[0] + 1))
+    else:
+        w.canary('canary: wrong truth value', bool(np.asarray(got).flat[0]) != bool(np.asarray(expect).flat[0]))
+
+
+# --------------------------------------------------------------------------- element / slice / fancy / boolean get and set
+
+def _indices(kind):
+    if kind == 'SparseVector':   # size 3
+        return {'int': 1, 'neg-int-free slice': slice(0, 2), 'open slice': slice(None), 'step slice': slice(0, 3, 2),
+                'list': [2, 0], 'ndarray': np.array([0, 2]), 'bool list': [True, False, True], 'bool ndarray': np.array([False, True, True]),
+                'tuple(int)': (1,), 'empty list': []}
+    return {'row': 1, 'row,col': (1, 0), 'row,slice': (0, slice(None)), 'slice,col': (slice(None), 1), 'slice,slice': (slice(None), slice(None)),
+            'row list': [1, 0], 'rowlist,collist': ([0, 1], [1, 0]), 'slice,collist': (slice(None), [1, 0]), 'rowlist,slice': ([1], slice(None)),
+            'bool rows': [True, False], '2-d bool mask': np.array([[True, False], [False, True]]), 'row,part slice': (1, slice(0, 1)),
+            'partslice,col': (slice(0, 1), 1), 'rowlist,col': ([0, 1], 1), 'open slice': slice(None)}
+
+
+def getset_configs(tier):
+    out = []
+    for kind, shape in (('SparseVector', (3,)), ('SparseArray', (2, 2))):
+        for iname in _indices(kind):
+            out.append({'name': f'{kind}{list(shape)}[{iname}] get', 'kind': kind, 'shape': list(shape), 'index': iname, 'op': 'get'})
+            for vkind in ('scalar', 'zero', 'array'):
+                out.append({'name': f'{kind}{list(shape)}[{iname}] = {vkind}', 'kind': kind, 'shape': list(shape), 'index': iname,
+                            'op': 'set', 'value': vkind})
+    return out
+
+
+@group('C09/getset', configs=getset_configs,
+       functions=['thermosteam.base.sparse:SparseVector.__getitem__', 'thermosteam.base.sparse:SparseVector.__setitem__',
+                  'thermosteam.base.sparse:SparseArray.__getitem__', 'thermosteam.base.sparse:SparseArray.__setitem__',
+                  'thermosteam.base.sparse:get_array_properties', 'thermosteam.base.sparse:get_ndim', 'thermosteam.base.sparse:default_range',
+                  'thermosteam.base.sparse:unpack_index'])
+def getset(w, cfg):
+    a, A = mk_operand(w, 'a', cfg['kind'], tuple(cfg['shape']))
+    A0 = A.copy()
+    index = _indices(cfg['kind'])[cfg['index']]
+    np_index = index
+    if cfg['op'] == 'get':
+        np_exc = sp_exc = None
+        try: expect = A[np_index]
+        except (IndexError, ValueError, TypeError) as e: np_exc = e
+        try: r = a[index]
+        except (IndexError, ValueError, TypeError) as e: sp_exc = e
+        if np_exc is not None:
+            w.ensure('NumPy rejects the index => sparse rejects it', sp_exc is not None)
+            w.canary('canary: accepted', sp_exc is None); return
+        w.ensure('NumPy accepts the index => sparse accepts it', sp_exc is None, exc=str(sp_exc))
+        if sp_exc is not None: return
+        w.ensure('value read = NumPy value', same(w, image(r) if isinstance(r, (SparseVector, SparseArray)) else r, expect),
+                 shapes=f'{np.shape(image(r) if isinstance(r, (SparseVector, SparseArray)) else r)} vs {np.shape(expect)}')
+        w.ensure('reading leaves the array unchanged', same(w, image(a), A0))
+        w.canary('canary: read differs', w.And(False) if np.asarray(expect).size == 0 else w.eq(np.asarray(image(r) if isinstance(r, (SparseVector, SparseArray)) else r, dtype=object).flat[0], np.asarray(expect, dtype=object).flat[0] + 1))
+        return
+    # set
+    target_shape = np.shape(A[np_index]) if True else None
+    vk = cfg['value']
+    if vk == 'scalar':
+        v = w.real('v'); V = v
+    elif vk == 'zero':
+        v = 0.; V = 0.
+    else:
+        n = int(np.prod(target_shape)) if target_shape != () else 1
+        vals = [w.real(f'v{i}') for i in range(n)]
+        V = np.array(vals, dtype=object if w.symbolic else float).reshape(target_shape if target_shape != () else (1,))
+        if target_shape == (): V = V[0]
+        v = V.copy() if hasattr(V, 'copy') and not np.isscalar(V) and target_shape != () else V
+    E = A.copy()
+    np_exc = sp_exc = None
+    try: E[np_index] = V
+    except (IndexError, ValueError, TypeError) as e: np_exc = e
+    try: a[index] = v
+    except (IndexError, ValueError, TypeError) as e: sp_exc = e
+    if np_exc is not None:
+        w.ensure('NumPy rejects the assignment => sparse rejects it', sp_exc is not None)
+        w.canary('canary: accepted', sp_exc is None); return
+    w.ensure('NumPy accepts the assignment => sparse accepts it', sp_exc is None, exc=str(sp_exc))
+    if sp_exc is not None: return
+    w.ensure('dense image after write = NumPy array after the same write (all other entries untouched)', same(w, image(a), E))
+    w.ensure('rep_ok after write', rep_ok(w, a))
+    w.canary('canary: write lost', w.eq(image(a).flat[0], E.flat[0] + 1))
